@@ -5,17 +5,18 @@ HERE = os.path.dirname(os.path.dirname(os.path.abspath(__file__)))
 sys.path.insert(0, os.path.join(HERE, "vlib")); sys.path.insert(0, os.path.join(HERE, "mir2smt"))
 import table, queries
 props = [json.loads(l) for l in open(os.path.join(HERE, "properties.jsonl"))]
-claimed = ["C01", "C02", "C03", "C04", "C05", "C09", "C10", "C11", "C12", "C13", "C14", "C15", "C16", "C18"]
+claimed = ["C01", "C02", "C03", "C04", "C05", "C06", "C09", "C10", "C11", "C12", "C13", "C14", "C15", "C16", "C18"]
 texts = {
 "C01": "Bounded model checking of the real send (lengths, buffer sizes symbolic at full width over a recording kernel), the real recv/IpcSender/IpcReceiver/bincode path (contents and values symbolic at boundary lengths over a queueing kernel; valid plans with short follow-ups injected), plus unbounded 64-bit SMT queries over the MIR of the size arithmetic including the inductive step of the fragment loop.",
 "C02": "The one-enqueue-per-message invariant that makes interleaving harmless is decided by the solver for all lengths/buffer sizes on the real send; message boundaries and order for two handles are decided on concrete shapes with symbolic contents. Concurrency itself is outside what Kani encodes (stated reduction argument).",
 "C03": "Solver-decided agreement of try_recv with the reference model (live handle count, FIFO) after every step of concrete handle histories with symbolic data, plus in-transit, crash and retained-clone scenarios; real Arc/Drop/consume_fd/SCM_RIGHTS code over the model kernel.",
 "C04": "Split at the wire interface: the real send's descriptor list (order, dedicated channel last, never more than the receiver takes) for all lengths and buffer sizes; the real recv's reconstruction (identity by kernel object, position, working endpoints, regions) for injected packets of that shape; SMT query for the descriptor-count formula.",
 "C05": "Real from_bytes/from_byte/clone/send/recv(from_fd, fstat, mmap)/Drop code with symbolic contents; exact-size backing makes any over-read or read after the last unmap a CBMC failure; zero-length regions received; regions around nested sends.",
+"C06": "The real OsIpcReceiverSet::{new, add, select} and mio's real Poll/Registry/Events code over a model of EDGE-triggered epoll that flags a lost wake-up whenever a wait would block while a member has an unread packet or unreported hang-up: concrete sequential scripts (members, arrival pattern, closures, when select is called) with symbolic payloads; exactly-once, ids, per-member order, closed-after-last-message, traffic queued before add. The concurrent part of the quantifier is outside what Kani encodes.",
 "C09": "Scenario x shape grid with symbolic payloads: send must fail when the receiver exists nowhere (also when it last lived on descriptor 0) and succeed (and be delivered intact) while it is only in transit.",
 "C10": "Solver over all Durations for the poll time-out arithmetic; call sequences with symbolic values for Empty/message/Disconnected (a queued message before the hang-up is returned first) and for blocking mode being restored on every path.",
 "C11": "Descriptor/mapping ledger asserted at the end of every harness (all properties) + dedicated error-path, failed-send and close-on-exec harnesses.",
-"C12": "Receiver fed with every prefix of the sender's packet plan followed by process exit; never a shortened/mixed message as Ok; disconnected only without survivor (known finding recorded).",
+"C12": "Receiver fed with every prefix of the sender's packet plan followed by process exit; never a shortened/mixed message as Ok; disconnected only without survivor (known finding recorded); the same observed through a receiver set (select must not fail as a whole, completed messages of other members survive).",
 "C13": "Symbolic ENOBUFS mask over the first 8 attempts on the real send at full width; short follow-ups on the receive side; SMT queries for downsize and the retry steps at all 64-bit values.",
 "C14": "Real IpcSender::send/Serialize impls/side tables over the recording kernel: descriptor lists and attachment indices of failed, later, nested and enclosing messages; a receive nested in a Deserialize impl over the queueing kernel.",
 "C15": "Sender never emits a header packet with more descriptors than the receiver's control buffer holds (64), for the boundary counts and the three ways a dedicated channel gets added; receiver delivers everything up to that bound.",
@@ -23,7 +24,6 @@ texts = {
 "C18": "CBMC's built-in memory checks over the unsafe transport code in the harnesses of C01/C04/C05/C12/C15 (incl. short follow-ups: every byte of the result was written) + zero-length regions + CMSG arithmetic SMT queries.",
 }
 reasons = {
-"C06": "receiver set = mio + hashbrown + epoll: a harness was built (kani/src/h_set.rs, passes natively on the real kernel) but under Kani symbolic execution does not get past hashbrown's SIMD-emulated group-probing loop in 40 min (design-phase probe: out of memory at 30 GB); also std's OwnedFd debug check calls variadic fcntl with 2 arguments, which ICEs kani-compiler against the model's fcntl. Not replaced by a sampled test",
 "C07": "router: reachable only through RouterProxy::new, which spawns a thread and uses crossbeam-channel; Kani does not model threads and kani-compiler 0.68 ICEs on crossbeam's thread_local with destructor",
 "C08": "one-shot server: straight-line socket/bind/listen/accept/connect + tempfile; everything the property states is behaviour of the kernel's listen queue, SO_LINGER, tempfile's RNG and std::fs - model, not code",
 "C17": "router shutdown: threads and schedules only (see C07)",
@@ -47,13 +47,13 @@ for pid in claimed:
         replay_cmd_template="python3 tools/replay.py {path}",
         engine="kani-cbmc" + ("+mir2smt" if smt else ""),
         level_claimed=dict(category="model_checking", text=texts[pid] + " Bounds: " + P["bounds"], design_ref="DESIGN.md §5 " + pid),
-        level_note="Trusted: " + "; ".join(P["assumptions"]) + "; hooks H1-H3; fmt::format stub; drop-glue recursion cap guarded by unwinding assertions. Outside: " + P["outside"],
+        level_note="Trusted: " + "; ".join(P["assumptions"]) + "; hooks H1-H4; fmt::format stub; drop-glue recursion cap guarded by unwinding assertions. Outside: " + P["outside"],
         technique=tech))
 na = [dict(property_id=p["id"], reason=reasons[p["id"]]) for p in props if p["id"] not in claimed]
 m = dict(version=1, setup_cmd="python3 tools/setup.py",
   hooks=dict(guard="cfg(kani) / cfg(ipc_channel_verif)", enable="cargo kani sets --cfg kani; native replay/validation builds use RUSTFLAGS='--cfg ipc_channel_verif'",
              baseline_off_cmd="cd /repo && cargo test --workspace --no-fail-fast --offline",
-             source_commits=["6b3fc75", "7e25d5c", "7a98e87"], add_only=True),
+             source_commits=["6b3fc75", "7e25d5c", "7a98e87", "827a8b4", "d2fc748"], add_only=True),
   engines=[dict(name="kani-cbmc", path="/verif/kani", serves_properties=claimed, kind_free_text="Kani 0.68 / CBMC 6.11 (CaDiCaL) bounded model checking of /repo compiled with kani-compiler; libc replaced by model kernels kq.rs (queueing) / krec.rs (recording)"),
            dict(name="mir2smt", path="/verif/mir2smt", serves_properties=sorted(set(p for q in queries.QUERIES for p in q[1])), kind_free_text="translator from rustc's MIR dump of /repo to SMT-LIB bit-vectors + full-width queries decided by z3 and cvc5"),
            dict(name="native-replay", path="/verif/replay", serves_properties=claimed, kind_free_text="the same harness code over the real kernel behind fault-injecting libc wrappers: counterexample replay and model validation")],
